@@ -32,6 +32,9 @@ func init() {
 			"so that the next statement cannot be glued onto it; the only bypass is an exported function/class declaration. R09.2 of the design (keyword separation typestate) was evaluated and dropped: the printer's space insertion is data dependent (m.prev bytes), no exact static formulation exists without an allow-list.",
 		Run: runC09,
 	})
+	mutant(&Mutant{Name: "c04-attribute-value-unquoted-by-own-test", Property: "C04", File: "css/css.go",
+		Old: "\t\t\t\tif css.IsIdent(s) {\n\t\t\t\t\tc.w.Write(s)", New: "\t\t\t\tif css.IsIdent(s) || s[0] == '-' {\n\t\t\t\t\tc.w.Write(s)",
+		Rule: "R04.11", Construct: "attribute value unquoted"})
 	mutant(&Mutant{Name: "c04-token-equal-folds-case", Property: "C04", File: "css/css.go",
 		Old: "if t.TokenType == t2.TokenType && bytes.Equal(t.Data, t2.Data) && len(t.Args) == len(t2.Args) {", New: "if t.TokenType == t2.TokenType && bytes.EqualFold(t.Data, t2.Data) && len(t.Args) == len(t2.Args) {",
 		Rule: "R04.9", Construct: "Token.Equal"})
@@ -180,6 +183,7 @@ func runC04(c *Ctx) {
 	c.R.Floor(r7, "ParseInt calls", n7, 1)
 	c.r049(pk)
 	c.r0410(pk)
+	c.r0411(pk)
 	// positions remembered while rewriting a value list (background layers) stay valid: same rule as R10.5, css only
 	c.alsoUnder(map[string]string{"R10.5": "R04.8"}, func(construct string) bool {
 		return strings.HasPrefix(construct, "css.") || strings.HasPrefix(construct, "floor/")
@@ -393,11 +397,14 @@ func runC09(c *Ctx) {
 		// a reserved word handed out as a name, or `in` without parentheses in a for-init, is output the parser rejects
 		c.alsoUnder(map[string]string{"R02.3": "R09.5"}, nil, func() { c.r023(pk) })
 		c.alsoUnder(map[string]string{"R01.16": "R09.6"}, nil, func() { c.r0116(pk) })
+		// the for-init flag leaking out of an expression printer removes the parentheses of a later `in`: invalid output
+		c.alsoUnder(map[string]string{"R01.3": "R09.13"}, nil, func() { c.r013(pk, "R01.3", map[string]bool{"inFor": true}) })
 		c.r0911(pk)
 		c.r0912(pk)
 	}
 	// a JSON number without its leading zero (`.5`) is not JSON
-	c.alsoUnder(map[string]string{"R07.3": "R09.7", "R07.12": "R09.10"}, nil, func() { runC07own(c) })
+	// … and a JSON string that is rewritten can end the script element it is embedded in (`<\/script>` → `</script>`)
+	c.alsoUnder(map[string]string{"R07.3": "R09.7", "R07.12": "R09.10", "R07.1": "R09.14"}, nil, func() { runC07own(c) })
 	c.r098()
 }
 
@@ -1007,4 +1014,126 @@ func (c *Ctx) r0912(pk *packages.Package) {
 		})
 	}
 	c.R.Floor(rule, "assignments to an Optional field", n, 3)
+}
+
+// R04.11: the quotes of an attribute selector value go only when the value is an identifier.
+func (c *Ctx) r0411(pk *packages.Package) {
+	const rule = "R04.11"
+	c.R.Rule(rule, "`[data-n=\"-1\"]` may lose its quotes only if the value is a CSS identifier — otherwise the selector is invalid and the whole rule is dropped by the browser (`[data-n=-1]`). What an identifier is, the tokenizer of the parse library defines (css.IsIdent: a leading `-` must be followed by a name-start character, escapes, non-ASCII). In cssMinifier.minifySelectors the write of the unquoted bytes is dominated by the true outcome of css.IsIdent over those bytes, or of a one-parameter helper in which every way of answering true goes through css.IsIdent of its parameter")
+	info := pk.TypesInfo
+	fd := c.fn(rule, pk, "cssMinifier.minifySelectors")
+	if fd == nil {
+		return
+	}
+	g := c.graph(pk, fd)
+	isIdentFn := load.ParseMod + "/css.IsIdent"
+	// helperOK: fn(p) returns true only via css.IsIdent(p)
+	helperOK := func(call *ast.CallExpr) bool {
+		fo, _ := callee(info, call).(*types.Func)
+		if fo == nil || fo.Pkg() != pk.Types || len(call.Args) != 1 {
+			return false
+		}
+		hd := load.Func(pk, fo.Name())
+		if hd == nil || hd.Body == nil || len(hd.Type.Params.List) != 1 || len(hd.Type.Params.List[0].Names) != 1 {
+			return false
+		}
+		pn := hd.Type.Params.List[0].Names[0].Name
+		hg := c.graph(pk, hd)
+		ok := true
+		viaIdent := func(q *flow.Node) bool {
+			if q.Kind != flow.KTrue || q.Of == nil || q.Of.Kind != flow.KCond {
+				return false
+			}
+			cl := isCall(info, ast.Unparen(q.Of.Expr), isIdentFn)
+			return cl != nil && nospace(str(cl.Args[0])) == pn
+		}
+		for _, y := range hg.Nodes {
+			rs := retStmt(y)
+			if rs == nil || len(rs.Results) != 1 {
+				continue
+			}
+			r := ast.Unparen(rs.Results[0])
+			if tv, isK := info.Types[r]; isK && tv.Value != nil {
+				if tv.Value.String() == "false" {
+					continue
+				}
+				// return true: every path to it passes IsIdent(p) == true
+				y := y
+				if hg.Path(flow.Search{From: []*flow.Node{hg.Entry}, Goal: func(q *flow.Node) bool { return q == y }, Avoid: viaIdent}) != nil {
+					ok = false
+				}
+				continue
+			}
+			// return <expr>: a conjunction one of whose conjuncts is css.IsIdent(p)
+			has := false
+			var flat func(e ast.Expr)
+			flat = func(e ast.Expr) {
+				e = ast.Unparen(e)
+				if b, isB := e.(*ast.BinaryExpr); isB && b.Op == token.LAND {
+					flat(b.X)
+					flat(b.Y)
+					return
+				}
+				if cl := isCall(info, e, isIdentFn); cl != nil && nospace(str(cl.Args[0])) == pn {
+					has = true
+				}
+			}
+			flat(r)
+			if !has {
+				ok = false
+			}
+		}
+		return ok
+	}
+	n := 0
+	for _, y := range g.Nodes {
+		a := y.Ast()
+		if a == nil || y.Kind != flow.KStmt {
+			continue
+		}
+		var written string
+		flowInspectCalls(a, func(call *ast.CallExpr) {
+			if sel, ok := call.Fun.(*ast.SelectorExpr); ok && sel.Sel.Name == "Write" && len(call.Args) == 1 {
+				if id, ok := ast.Unparen(call.Args[0]).(*ast.Ident); ok {
+					written = id.Name
+				}
+			}
+		})
+		if written == "" {
+			continue
+		}
+		// only the write of the stripped string: the variable is defined as X.Data[1:len(X.Data)-1]
+		isStripped := false
+		for _, q := range g.Nodes {
+			if as, ok := q.Stmt.(*ast.AssignStmt); ok && q.Kind == flow.KStmt && len(as.Lhs) == 1 && len(as.Rhs) == 1 && nospace(str(as.Lhs[0])) == written {
+				if se, ok := ast.Unparen(as.Rhs[0]).(*ast.SliceExpr); ok && strings.HasSuffix(nospace(str(se.X)), ".Data") && se.Low != nil && se.High != nil && g.Dominates(q, y) {
+					isStripped = true
+				}
+			}
+		}
+		if !isStripped {
+			continue
+		}
+		n++
+		good := false
+		via := ""
+		for _, f := range g.DomFacts(y) {
+			if !f.Value || f.Test.Kind != flow.KCond {
+				continue
+			}
+			call, ok := ast.Unparen(f.Test.Expr).(*ast.CallExpr)
+			if !ok || len(call.Args) != 1 || nospace(str(call.Args[0])) != written {
+				continue
+			}
+			if calleeName(info, call) == isIdentFn {
+				good = true
+			} else if helperOK(call) {
+				good = true
+			} else {
+				via = calleeName(info, call)
+			}
+		}
+		c.R.Check(good, rule, fmt.Sprintf("css.cssMinifier.minifySelectors/attribute value unquoted#%d only when it is an identifier", n), c.pos(a), "behind css.IsIdent("+written+")", "the value is written without its quotes on the verdict of "+via+", which can say yes where the tokenizer's css.IsIdent says no (`-1`, a lone `-`): the selector becomes invalid and the rule is dropped")
+	}
+	c.R.Floor(rule, "unquoted attribute values", n, 1)
 }
